@@ -165,10 +165,11 @@ class RandomTree:
                 return False
             cur = nxt[0]
 
-    def step(self, now_slack=0, force=None):
+    def step(self, now_slack=0, force=None, parent=None):
         """force: None | "" (a valid block) | a mutation name (HDR_MUTS / TX_MUTS / "reward+1" ...)."""
         rng, w = self.rng, self.w
-        parent = rng.choice(self.stored) if rng.random() < 0.6 else self.stored[-1]
+        if parent is None:
+            parent = rng.choice(self.stored) if rng.random() < 0.6 else self.stored[-1]
         bid = self.next_id
         h = self.height[parent] + 1
         ts = self.ts[parent] + rng.choice([1, 1, 2, 3])
@@ -620,6 +621,42 @@ def run(pid, tier, replay=None):
         for rec in recs:
             chk.case(json.dumps(rec.abstract), nontrivial=True)
         judge(chk, traces, recs, cfg_model, focus)
+        # the same clauses on the node's delivery path: random trees delivered block by block to a real node (real store), where
+        # arrivals include repeated deliveries of blocks on the active chain, on side branches, of tips and of blocks that have children
+        from checks import node as nodechk
+        from harness import node_drv
+        sk.apply_cfg(cfg_model)
+        sba, hba = nodechk.probe_switches(cfg_model, keys)
+        nconsts = nodechk.ledger_consts(cfg_model, {pid}, sba, hba)
+        nconsts["Focus"] = {pid}
+        ntraces, nlabels = [], []
+        for i in range(12 if quick else 150):
+            w3 = sk.World(cfg_model, keys, tag=b"d%d" % i)
+            g3 = w3.make_genesis(ts=5000)
+            tid += 1
+            run_ = node_drv.NodeRun(w3, g3, peers=nodechk.PEERS, tid=tid, clock0=5000)
+            try:
+                nrec = nodechk.NodeRec(run_, rng)
+                rt = RandomTree(w3, nrec, rng, nkeys=3, p_mut=0.0, hdr=True)
+                lab = []
+                for k in range(12 if quick else 24):
+                    if len(rt.stored) > 2 and rng.random() < 0.35:
+                        a = rng.choice(rt.stored[1:])
+                        openp = [p_ for p_ in run_.peers if run_.node.is_open(p_)]
+                        if openp:
+                            run_.deliver_block(rng.choice(openp), w3.by_abs[a], label="dup")
+                            lab.append(["dup", a])
+                    else:
+                        res, m = rt.step()
+                        lab.append(["block", res])
+                if run_.events:
+                    ntraces.append(run_.trace())
+                    nlabels.append(lab)
+                chk.case(json.dumps(["node", lab]), nontrivial=any(x[0] == "dup" for x in lab))
+            finally:
+                run_.close()
+        nodechk.judge(chk, ntraces, nlabels, nconsts)
+        chk.sample({"source": "random tree delivered to a real node with repeated deliveries", "steps": nlabels[0]})
         chk.extra["exhaustive"] = True
         chk.extra["rule"] = ("every sequence in which each new block picks any earlier block as parent (6 blocks after genesis: "
                              "720 histories; thorough: 7 -> 5040), each replayed through CoinState.add_block; plus randomized deeper "
